@@ -287,6 +287,7 @@ macro_rules! dens_inst {
                         if v.is_empty() && nb_empty as usize == s.verif_state().0.len() {
                             return Applied::Unsupported;
                         }
+                        let _w = crate::common::watched(|| format!("sketch_slice on a densified sketcher ({} items)", v.len()));
                         to_applied(g(|| s.sketch_slice(v).map_err(|e| e.to_string())))
                     }
                     Op::End => {
@@ -294,6 +295,7 @@ macro_rules! dens_inst {
                         if nb_empty as usize == hs.len() {
                             return Applied::Unsupported;
                         }
+                        let _w = crate::common::watched(|| "end_sketch".to_string());
                         to_applied(g(|| {
                             s.end_sketch();
                             Ok(())
@@ -312,6 +314,7 @@ macro_rules! dens_inst {
                 if nb_empty as usize == hs.len() {
                     return Ok(vec![0xE0E0_E0E0]); // nothing streamed: no sketch to observe
                 }
+                let _w = crate::common::watched(|| "end_sketch (before reading the sketch)".to_string());
                 g(|| {
                     s.end_sketch();
                     let mut v: Vec<u64> = s.get_hsketch().iter().map(|f| f.bits()).collect();
